@@ -7,7 +7,7 @@ can run while other things use /repo; tools/eval_mutant.py does the same thing o
 --write regenerates seeded/RESULTS.md (only when every kept change was evaluated).  Evidence files written during these runs describe
 changed trees: re-run tools/run_all.py afterwards."""
 import json, os, shutil, subprocess, sys, threading, queue, time
-V = '/verif'; POOL = '/tmp/cmxv_eval'
+V = '/verif'; POOL = f'/tmp/cmxv_eval/{os.getpid()}'   # one pool per invocation: several evaluations may run side by side
 args = sys.argv[1:]
 harmless = '--harmless' in args; write = '--write' in args
 jobs = int(args[args.index('--jobs') + 1]) if '--jobs' in args else 5
